@@ -7,14 +7,14 @@ hooks = [l.split(" ")[0] for l in REPO_HOOK_COMMITS if l.split(" ", 1)[1].starts
 
 CHECKS = {
     "C01": dict(
-        text="Theorems for all bounds 1<=n<2^32 and all raw words (range, exactly equal fibres, majority accepted, restart on rejection, (rej n)^t all-reject streams, 4 bytes <-> word bijection) about the Gallina transcription of randomUint32n/randomUint32; the transcription is differential-tested against the real code through the scripted crypto/rand.Reader, and a full 2^32 raw-word sweep of the real draw is the direct oracle.",
+        text="Theorems for all bounds 1<=n<2^32 and all raw words (range, exactly equal fibres, majority accepted, restart on rejection, (rej n)^t all-reject streams, 4 bytes <-> word bijection) about the Gallina transcription of randomUint32n/randomUint32; the transcription is differential-tested against the real code through the scripted crypto/rand.Reader, and a full 2^32 raw-word sweep of the real draw is the direct oracle (bounds above 2^31: a collision probe followed by a full count of two alternatives).",
         ref="§3.1, §6 C01",
         note="Trusts Coq kernel+VM, the hand transcription of util.go:42-50,74-87 (tied by the draw correspondence family incl. chunked reads, faults and forced rejections), extraction (ExtrOcamlBasic only), harness and orchestrator. No axioms.",
         technique="Coq proof by induction/counting over N (modulus as section variable) + differential correspondence + exhaustive 2^32 sweep oracle"),
     "C02": dict(
-        text="Theorems for every recipe, budget and candidate string: one attempt is exactly (1/a)^L on the strings over the duplicate-free alphabet and 0 elsewhere; the generator returns every satisfying string with one and the same probability q=(1/a)^L*(1+f+..+f^(T-1)) and every other string with probability 0 (whole-candidate redraw); the ideal distribution is the unique solution of the first-step equations with the raw 32-bit word counts of C01; alphabet order is irrelevant. The gen term the theorems are about is the one the tape interpreter runs in the correspondence check.",
+        text="Theorems for every recipe, budget and candidate string: one attempt is exactly (1/a)^L on the strings over the duplicate-free alphabet and 0 elsewhere; the generator returns every satisfying string with one and the same probability q=(1/a)^L*(1+f+..+f^(T-1)) and every other string with probability 0 (whole-candidate redraw); the ideal distribution is the unique solution of the first-step equations with the raw 32-bit word counts of C01, and it is the LIMIT of the exact frequencies over uniform raw tapes: the number of m-word tapes on which the tape interpreter returns a value is given by a recursion over the C01 counts (rawcount_NR), the cumulated frequency is below the ideal probability and within u(depth, M) of it, and u tends to 0 (frequency_sandwich, u_vanishes) — no informal step between bytes and distribution; alphabet order is irrelevant. The gen term the theorems are about is the one the tape interpreter runs in the correspondence check.",
         ref="§3, §6 C02",
-        note="Trusts kernel+VM, hand model of buildCharacterList/requireFilter/Generate (tied by the chargen correspondence family under the canonical-alphabet hook), extraction, harness. Domain: valid UTF-8 recipe strings; alphabets < 2^32. The sentence 'output probability under i.i.d. uniform bytes obeys first-step analysis' is the only informal step (DESIGN §3.3). No axioms.",
+        note="Trusts kernel+VM, hand model of buildCharacterList/requireFilter/Generate (tied by the chargen correspondence family under the canonical-alphabet hook), extraction, harness. Domain: valid UTF-8 recipe strings; alphabets < 2^32. No axioms.",
         technique="Coq proof (expectation monad, retry geometric factor, counting over strings_over) + differential correspondence + complete index-cell enumeration oracle"),
     "C03": dict(
         text="Theorems for all recipes and all raw-word streams: a returned password satisfies the recipe (length, allowed, not excluded, every live required family hit); the alphabet is exactly the allowed-and-not-excluded characters, sorted, duplicate-free, canonical, and every listed character is drawn.",
@@ -87,7 +87,7 @@ CHECKS = {
         note="Trusts kernel+VM, hand model of NewWordList with explicit iteration-order parameters (tied by the wordlist family: kept set read out through one-word passwords, several constructions per input). Caller-slice immutability: by the model's immutability, the translator's effect summary and the before/after comparison. No axioms.",
         technique="Coq proof (invariant over deletion-while-ranging, for all visiting orders) + differential correspondence + specification oracle with the real strings.Title graph"),
     "C09": dict(
-        text="Theorems about the scripted-reader semantics every generator runs on: raw words are the complete 4-byte groups of the delivered bytes, independent of chunking (hence outcome and byte count are chunking-invariant for every generator); a read failing with 0-3 bytes delivered ends the word stream and nothing after it is used; an error arriving with a completed read is dropped (io.ReadFull); a starved run is the PRNG panic and a password only ever comes from complete words preceding the first failing read. 'Only input is the source' holds by construction of the gen monad and is tied to the code by the import obligation regenerated from the source and by determinism runs.",
+        text="Theorems about the scripted-reader semantics every generator runs on: raw words are the complete 4-byte groups of the delivered bytes, independent of chunking (hence outcome and byte count are chunking-invariant for every generator); a read failing with 0-3 bytes delivered ends the word stream and nothing after it is used; an error arriving with a completed read is dropped (io.ReadFull); a starved run is the PRNG panic and a password only ever comes from complete words preceding the first failing read. 'Only input is the source' holds by construction of the gen monad and is tied to the code by obligations regenerated from the source (imports; crypto/rand.Read is called in exactly one function, into a buffer private to that activation) and by runs in which another generation executes inside a read of the first (interleave family): the same bytes give the same choices.",
         ref="§6 C09",
         note="Trusts kernel+VM, the model of crypto/rand.Read = io.ReadFull(Reader, 4 bytes) under go1.23.5 (tied by the faults family: 12 chunkings and a fault at every read position with 0-3 bytes, both generators), the translator's import list. That crypto/rand.Reader is the OS CSPRNG is Go's contract. No axioms.",
         technique="Coq proof (structural recursion over the read script) + differential correspondence + fault injection at every read position"),
@@ -137,7 +137,7 @@ def main():
         ],
         "checks": checks,
         "not_applicable": na,
-        "notes": "See DESIGN.md. known_findings.json lists repaired (fixed:) and open findings.",
+        "notes": "See DESIGN.md (§12 describes what is built). Every check: translator regenerates coq/Gen from the tree under test -> full Coq build -> Print Assumptions closed for every property theorem -> differential correspondence (Go harness built with -tags verif vs extracted model) -> kernel-evaluated sample (the run's own cases re-evaluated by vm_compute inside Coq against the extracted program) -> direct oracle -> verdict. known_findings.json lists repaired (fixed:) and open findings; seeded/ holds 72 confirmed seeded changes with what catches them.",
     }
     json.dump(m, open("/verif/MANIFEST.json", "w"), indent=1)
 
